@@ -6,8 +6,9 @@
 //!  * progress: `decode` never grows the buffer and never returns messages on two consecutive calls without
 //!    consuming input (`FramedRead` would spin);
 //!  * chunking independence: both runs return the same messages (compared by their `Debug` text, which is
-//!    kind exact for `Value`), each after consuming the same number of bytes of the stream, both end in an
-//!    error or both do not, and without an error they leave the same number of bytes unread;
+//!    kind exact for `Value`), each after consuming the same number of bytes of the stream, both end in a
+//!    decoder error or both do not (unread bytes of an incomplete last frame at the end of input are not a
+//!    decoder error), and without an error they leave the same number of bytes unread;
 //!  * raw (bytes) decoders: every message re-encodes, with the raw encoder of the same wire format, to exactly
 //!    the bytes consumed for it.
 //! Exempt are only two OPEN C10 findings:
@@ -15,8 +16,10 @@
 //!    `command-raw` the re-encoding may differ from the consumed bytes in byte 0 and nowhere else;
 //!  * `alloc:routed-req` (found by this target, /verif/fuzz/NOTES.md): the typed `RequestMessageDecoder`
 //!    reserves `node_len + lane_len` as declared by a header whose path has not arrived yet. An input is dropped
-//!    at exactly that call (decoder at a frame start, the 32 header bytes buffered, path incomplete) when the declared
-//!    sum is >= 2^31 (libFuzzer would report the 2..8 GiB request as out-of-memory); smaller sums run.
+//!    at exactly that call (decoder at a frame start, the 32 header bytes buffered, path incomplete) when the
+//!    declared sum is > 2^16, the cap the repository already uses in the raw routed decoders (so exactly the
+//!    inputs whose behaviour the finding changes; libFuzzer reports a multi-GiB request as out-of-memory and a
+//!    smaller one costs ~20 ms of shadow-memory poisoning per run).
 #![no_main]
 use bytes::{BufMut, Bytes, BytesMut};
 use libfuzzer_sys::{fuzz_target, Corpus};
@@ -62,7 +65,7 @@ fn routed_req_reserves_declared_path(buf: &[u8]) -> bool {
     }
     let node_len = u32::from_be_bytes(buf[16..20].try_into().unwrap()) as usize;
     let lane_len = u32::from_be_bytes(buf[20..24].try_into().unwrap()) as usize;
-    buf.len() < 32 + node_len + lane_len && node_len + lane_len >= 1 << 31
+    buf.len() < 32 + node_len + lane_len && node_len + lane_len > 1 << 16
 }
 
 /// `None`: the input is dropped (see `Guard`).
@@ -192,6 +195,14 @@ where
             ctx()
         );
     }
+    // Domain: Recon text is UTF-8 (C09: invalid UTF-8 is outside the parser's domain, only "no panic"). A typed
+    // decoder validates as much of a body as has arrived, so where a body stops being UTF-8 *after* its first
+    // complete value one read gives BadUtf8 and a chunked run may already have returned the value. Once a run of
+    // a typed family has ended with a UTF-8 error only the messages both runs returned are compared (above).
+    let utf8 = |r: &Run| r.err.as_deref().map(|e| e.contains("Utf8")).unwrap_or(false);
+    if reenc.is_none() && (utf8(&whole) || utf8(&parts)) {
+        return;
+    }
     assert!(
         whole.msgs.len() == parts.msgs.len(),
         "one read gives {} messages (error {:?}), chunked gives {} (error {:?}); first extra: {:?} ({})",
@@ -202,15 +213,19 @@ where
         whole.msgs.get(parts.msgs.len()).or(parts.msgs.get(whole.msgs.len())).map(|m| &m.0),
         ctx()
     );
+    // An incomplete last frame: a decoder that consumes a partial body as it arrives ends with an empty buffer
+    // (`Ok(None)`), otherwise the default `decode_eof` reports the unread bytes. Which of the two happens depends
+    // on the reads and both are "no message" (c10 NOTES "Truncated input at EOF"), so they count as the same end.
+    let failed = |r: &Run| r.err.as_deref().map(|e| !e.contains("bytes remaining on stream")).unwrap_or(false);
     assert!(
-        whole.err.is_some() == parts.err.is_some(),
+        failed(&whole) == failed(&parts),
         "after {} messages one read ends with {:?} but chunked with {:?} ({})",
         whole.msgs.len(),
         whole.err,
         parts.err,
         ctx()
     );
-    if whole.err.is_none() {
+    if whole.err.is_none() && parts.err.is_none() {
         assert!(
             whole.consumed == parts.consumed,
             "one read consumed {} bytes, chunked {} ({})",
